@@ -11,3 +11,4 @@ import Pyab.Properties.C11
 #print axioms Pyab.Properties.no_flag_dependent_statements
 #print axioms Pyab.Properties.no_identity_dependence
 #print axioms Pyab.Properties.no_ambient_dependence
+#print axioms Pyab.Properties.sly_uses_are_the_reviewed_ones
